@@ -59,11 +59,9 @@ theorem collect_nest : ∀ (xs : List (Key × Option SerFields)), (∀ kv ∈ xs
     cases o with
     | none =>
       refine ⟨(k, none) :: fs, ?_, by simp [hk], ?_⟩
-      · simp only [List.map_cons, collect, nest]
-        change Except.bind (Except.ok (k, none)) _ = _
-        simp only [Except.bind]
-        change Except.bind (collect _) _ = _
-        rw [hfs]; rfl
+      · have e1 : nest k (none : Option SerFields) = Except.ok (k, none) := rfl
+        simp only [List.map_cons]
+        rw [collect, e1, hfs]; rfl
       · intro kv hkv j hj
         rcases List.mem_cons.mp hkv with rfl | hkv
         · cases hj
@@ -71,11 +69,9 @@ theorem collect_nest : ∀ (xs : List (Key × Option SerFields)), (∀ kv ∈ xs
     | some v =>
       obtain ⟨⟨fv, rfl, hnd, _, hwf⟩, hrange⟩ := ho v rfl
       refine ⟨(k, some (.obj fv.toObj)) :: fs, ?_, by simp [hk], ?_⟩
-      · simp only [List.map_cons, collect, nest]
-        change Except.bind (Except.ok (k, some (Json.obj fv.toObj))) _ = _
-        simp only [Except.bind]
-        change Except.bind (collect _) _ = _
-        rw [hfs]; rfl
+      · have e1 : nest k (some (Except.ok fv : SerFields)) = Except.ok (k, some (Json.obj fv.toObj)) := rfl
+        simp only [List.map_cons]
+        rw [collect, e1, hfs]; rfl
       · intro kv hkv j hj
         rcases List.mem_cons.mp hkv with rfl | hkv
         · cases hj
@@ -83,6 +79,143 @@ theorem collect_nest : ∀ (xs : List (Key × Option SerFields)), (∀ kv ∈ xs
           · simp only [Json.wf, Bool.and_eq_true, decide_eq_true_eq]; exact ⟨hwf, hnd⟩
           · simp only [Json.inRange]; exact hrange fv rfl
         · exact hv kv hkv j hj
+
+/-- the per-register facts the composition needs (instantiated in Props/C07, C08) -/
+structure RegsGood : Prop where
+  b05 : ∀ s, wp Bds05.read (fun a _ => RegGood a) s
+  b10 : ∀ s, wp Bds10.read (fun a _ => RegGood a) s
+  b17 : ∀ s, wp Bds17.read (fun a _ => RegGood a) s
+  b18 : ∀ s, wp Bds18.read (fun a _ => RegGood a) s
+  b19 : ∀ s, wp Bds19.read (fun a _ => RegGood a) s
+  b20 : ∀ s, wp Bds20.read (fun a _ => RegGood a) s
+  b21 : ∀ s, wp Bds21.read (fun a _ => RegGood a) s
+  b30 : ∀ s, wp Bds30.read (fun a _ => RegGood a) s
+  b40 : ∀ s, wp Bds40.read (fun a _ => RegGood a) s
+  b44 : ∀ s, wp Bds44.read (fun a _ => RegGood a) s
+  b45 : ∀ s, wp Bds45.read (fun a _ => RegGood a) s
+  b50 : ∀ s, wp Bds50.read (fun a _ => RegGood a) s
+  b60 : ∀ s, wp Bds60.read (fun a _ => RegGood a) s
+  b65 : ∀ s, wp Bds65.readEnum (fun a _ => RegGood a) s
+
+/-- keys of the surveillance reply that the flattened Comm-B selector must not repeat -/
+def commbAvoid : List Nat :=
+  [(key! "df").id, (key! "altitude").id, (key! "squawk").id, (key! "icao24").id]
+
+/-- what the selector contributes to the message object: distinct `bdsXX` keys, none clashing with the
+    reply's own keys, each present register a well-formed in-range object -/
+def SelGood (r : SerFields) : Prop := SerGood commbAvoid r ∧ RangeGood r
+
+theorem selGood_of_collect {xs : List (Key × Option SerFields)} (hx : ∀ kv ∈ xs, OptGood kv.2)
+    (hnd : (xs.map (·.1.id)).Nodup) (hav : ∀ k ∈ xs.map (·.1.id), k ∉ commbAvoid)
+    (hns : ∀ k ∈ xs.map (·.1.id), specFor k = none) :
+    SelGood (collect (xs.map fun kv => nest kv.1 kv.2)) := by
+  obtain ⟨fs, hfs, hk, hv⟩ := collect_nest xs hx
+  have hkeys : fs.map (·.1.id) = xs.map (·.1.id) := by
+    have := congrArg (List.map Key.id) hk
+    simpa [List.map_map, Function.comp_def] using this
+  rw [hfs]
+  refine ⟨serGood_of _ fs (hkeys ▸ hnd) (hkeys ▸ hav) (fun kv hkv v hvv => (hv kv hkv v hvv).1), ?_⟩
+  apply rangeGood_of
+  intro kv hkv v hvv
+  have : specFor kv.1.id = none := hns _ (hkeys ▸ List.mem_map_of_mem (f := fun x => x.1.id) hkv)
+  rw [this]
+  exact (hv kv hkv v hvv).2
+
+theorem common_good (H : RegsGood) (buf : List Nat) (b05 : Option SerFields) (h05 : OptGood b05)
+    (out : SerFields) (h : common buf b05 = .ok out) : SelGood out := by
+  unfold common at h
+  obtain ⟨b10, h10, h⟩ := Outcome.bind_eq_ok h
+  obtain ⟨b17, h17, h⟩ := Outcome.bind_eq_ok h
+  obtain ⟨b18, h18, h⟩ := Outcome.bind_eq_ok h
+  obtain ⟨b19, h19, h⟩ := Outcome.bind_eq_ok h
+  obtain ⟨b20, h20, h⟩ := Outcome.bind_eq_ok h
+  obtain ⟨b21, h21, h⟩ := Outcome.bind_eq_ok h
+  obtain ⟨b30, h30, h⟩ := Outcome.bind_eq_ok h
+  obtain ⟨b40, h40, h⟩ := Outcome.bind_eq_ok h
+  obtain ⟨b44, h44, h⟩ := Outcome.bind_eq_ok h
+  obtain ⟨b45, h45, h⟩ := Outcome.bind_eq_ok h
+  obtain ⟨b50, h50, h⟩ := Outcome.bind_eq_ok h
+  obtain ⟨b60, h60, h⟩ := Outcome.bind_eq_ok h
+  simp only [] at h
+  have key : ∀ b65, OptGood b65 → SelGood (collect [
+      nest (key! "bds05") b05, nest (key! "bds10") b10, nest (key! "bds17") b17, nest (key! "bds18") b18,
+      nest (key! "bds19") b19, nest (key! "bds20") b20, nest (key! "bds21") b21, nest (key! "bds30") b30,
+      nest (key! "bds40") b40, nest (key! "bds44") b44, nest (key! "bds45") b45, nest (key! "bds50") b50,
+      nest (key! "bds60") b60, nest (key! "bds65") b65 ]) := by
+    intro b65 h65
+    have := selGood_of_collect (xs := [
+      (key! "bds05", b05), (key! "bds10", b10), (key! "bds17", b17), (key! "bds18", b18),
+      (key! "bds19", b19), (key! "bds20", b20), (key! "bds21", b21), (key! "bds30", b30),
+      (key! "bds40", b40), (key! "bds44", b44), (key! "bds45", b45), (key! "bds50", b50),
+      (key! "bds60", b60), (key! "bds65", b65)])
+      (by
+        intro kv hkv
+        simp only [List.mem_cons, List.mem_nil_iff, or_false] at hkv
+        rcases hkv with rfl | rfl | rfl | rfl | rfl | rfl | rfl | rfl | rfl | rfl | rfl | rfl | rfl | rfl
+        · exact h05
+        · exact hypo_post H.b10 h10
+        · exact hypo_post H.b17 h17
+        · exact hypo_post H.b18 h18
+        · exact hypo_post H.b19 h19
+        · exact hypo_post H.b20 h20
+        · exact hypo_post H.b21 h21
+        · exact hypo_post H.b30 h30
+        · exact hypo_post H.b40 h40
+        · exact hypo_post H.b44 h44
+        · exact hypo_post H.b45 h45
+        · exact hypo_post H.b50 h50
+        · exact hypo_post H.b60 h60
+        · exact h65)
+      (by simp only [List.map_cons, List.map_nil]; decide)
+      (by simp only [List.map_cons, List.map_nil]; decide)
+      (by simp only [List.map_cons, List.map_nil]; decide)
+    simpa using this
+  split at h
+  · obtain ⟨b65, h65, h⟩ := Outcome.bind_eq_ok h
+    cases h
+    exact key b65 (hypo_post H.b65 h65)
+  · cases h
+    exact key none (fun v e => by cases e)
+
+theorem selGood_empty : SelGood empty := by
+  refine ⟨serGood_of _ [] (by simp) (by simp) (by simp), ?_⟩
+  exact rangeGood_of [] (by simp)
+
+theorem df20_good (H : RegsGood) (ac : Nat) (s : Rd) : post (df20 ac) (fun r _ => SelGood r) s := by
+  unfold df20
+  apply post_bind; apply post_any; intro buf s1
+  apply post_ite
+  · intro _; exact post_pure _ _ _ selGood_empty
+  · intro _
+    apply post_bind; apply post_lift; intro b05 hb
+    apply post_lift; intro out ho
+    refine common_good H buf b05 ?_ out ho
+    split at hb
+    · cases ht : tryFromBytes Bds05.read buf with
+      | ok v =>
+        rw [ht] at hb
+        have hv : RegGood v := tryFromBytes_post H.b05 ht
+        cases v with
+        | ok fs =>
+          simp only [] at hb
+          split at hb
+          · split at hb
+            · cases hb; intro v' e; cases e; exact hv
+            · cases hb; intro v' e; cases e
+          · cases hb; intro v' e; cases e
+        | error e => cases hb; intro v' e'; cases e'; exact hv
+      | err e => rw [ht] at hb; cases hb; intro v' e'; cases e'
+      | panic x => rw [ht] at hb; cases hb
+    · cases hb; intro v' e; cases e
+
+theorem df21_good (H : RegsGood) (s : Rd) : post df21 (fun r _ => SelGood r) s := by
+  unfold df21
+  apply post_bind; apply post_any; intro buf s1
+  apply post_ite
+  · intro _; exact post_pure _ _ _ selGood_empty
+  · intro _
+    apply post_lift; intro out ho
+    exact common_good H buf none (fun v e => by cases e) out ho
 
 end Commb
 end Rs1090.Model
